@@ -197,14 +197,16 @@ def ngonScale (n : Nat) (area : α) : α :=
 def ngonTheta (n : Nat) (angle : α) (k : Nat) : α :=
   Scalar.ofNat k * ((lit 2 * Scalar.pi - lit 0) / Scalar.ofNat n) + lit 0 + angle
 
+/-- row `k` of `ngon_vertices` after the rescaling of its first two columns -/
+def ngonVertex (n : Nat) (z area angle : α) (k : Nat) : V3 α :=
+  let th := ngonTheta n angle k
+  let s := ngonScale n area
+  ⟨Scalar.cos th * s, Scalar.sin th * s, z⟩
+
 /-- `_make_ngon(n, z, area, angle)` (area not None) -/
 def ngon (n : Nat) (z area angle : α) : Except String (List (V3 α)) :=
   if n < 3 then .error "ValueError"
-  else
-    let s := ngonScale n area
-    .ok ((List.range n).map fun k =>
-      let th := ngonTheta n angle k
-      ⟨Scalar.cos th * s, Scalar.sin th * s, z⟩)
+  else .ok ((List.range n).map (ngonVertex n z area angle))
 
 /-- `RegularNGonFamily.make_vertices(n)` -/
 def regularNGon (n : Nat) : Except String (List (V3 α)) := ngon n (lit 0) (lit 1) (lit 0)
